@@ -25,6 +25,7 @@ RULE = ('Hypothesis generates arrays with a distinct value in every (model, aper
         'wavelengths with a non-palindromic spectrum; distinct = distinct canonical JSON.')
 RULE += (' ' + 'Also varied: an older compressed copy <name>.gz next to the SED file being written, error units, second cube with permuted names.')
 RULE += (' ' + 'Aperture axis stored ascending / descending / rotated, cells compared by aperture value.')
+RULE += (' ' + 'A quarter of the cubes hold names longer than 30 characters, several sharing their first 30.')
 ASSUMPTIONS = [
     'values are requested in the unit they were stored in; equality within 1e-13 relative (unit algebra rounds), exact '
     'for convolved-flux tables',
@@ -58,6 +59,9 @@ def arrays(draw, max_models=6, need_models=True):
             'order': draw(st.sampled_from(['nu', 'wav'])), 'memmap': draw(st.booleans()),
             'distance_kpc': draw(st.sampled_from([1., 1., 0.14, 8.5])), 'ap_unit': draw(st.sampled_from(['au', 'au', 'pc', 'cm'])),
             'err_other_unit': draw(st.booleans()),
+            # cube entry: descriptive names longer than the 30 characters of a convolved-flux column, several of which share
+            # their first 30 characters
+            'long_names': draw(st.integers(0, 3)) == 0,
             # what else is in the directory the file is written to: nothing, or an older compressed copy <name>.gz
             'gz_sibling': draw(st.integers(0, 3)) == 0,
             'ap_store': draw(st.sampled_from(['asc', 'asc', 'desc', 'rot']))}
@@ -233,6 +237,9 @@ def run_cube(case, ctx):
     labels = {'unit_' + case['unit'], 'supplied_' + case['supplied'], 'read_' + case['order'],
               'with_ap' if case['with_ap'] else 'no_ap', 'with_unc' if case['with_unc'] else 'no_unc',
               'memmap' if case['memmap'] else 'no_memmap', 'apertures_stored_' + case.get('ap_store', 'asc')}
+    if case.get('long_names'):
+        case = dict(case, names=gen.long_names(case['names']))
+        labels.add('names_longer_than_30_characters')
     c = SEDCube()
     with must_succeed('building an SEDCube'):
         c.names = np.array(case['names'])
